@@ -60,6 +60,10 @@ def run_case(case, ctx):
     ctx.stat('events_per_run', len(r1['events']))
     ctx.mon('releases_observed', nrel)
     ctx.mon('selections_observed', nsel)
+    scales = sorted({round(float(np.min(e['scale'])), 9) for e in r1['events'] if e['type'] == 'release'})
+    ctx.stat('distinct_noise_scales_per_run:' + case['mech'], len(scales))
+    if case['mech'] == 'aim' and len(scales) >= 3:
+        ctx.tag('aim_budget_annealing_branch_taken')   # sigma halved at least once besides the final "use the rest" round
     key = 'eps' if cfg['accounting'] == 'pure' else 'rho'
     for kind, rows2 in case['neighbours']:
         r2 = H.run(cfg, case['attrs'], case['shape'], rows2, 'replay', case['private_seed'], case['post_seed'], replay=r1['events'])
